@@ -1,25 +1,17 @@
 package main
 
 import (
-	"bytes"
 	"context"
-	"crypto/ecdsa"
 	"crypto/ed25519"
-	"crypto/elliptic"
 	crand "crypto/rand"
 	"crypto/tls"
-	"crypto/x509"
-	"crypto/x509/pkix"
 	"encoding/json"
-	"encoding/pem"
 	"fmt"
 	"io"
-	"math/big"
 	"math/rand/v2"
 	"net"
 	"net/http"
 	"os"
-	"path/filepath"
 	"sort"
 	"strings"
 	"sync"
@@ -29,44 +21,27 @@ import (
 	"github.com/transparency-dev/witness/internal/verif/kit/ev"
 	"github.com/transparency-dev/witness/internal/verif/kit/gen"
 	"github.com/transparency-dev/witness/internal/verif/kit/refwitness"
+	"github.com/transparency-dev/witness/internal/verif/kit/stubs"
 	"github.com/transparency-dev/witness/internal/verif/kit/wit"
 	"github.com/transparency-dev/witness/omniwitness"
 	"golang.org/x/mod/sumdb/note"
-	"golang.org/x/net/http2"
 )
 
 var (
-	stubCert tls.Certificate
-	cfgMu    sync.Mutex // omniwitness.ConfigLogs is process-wide; Main reads it once at start
+	stubTLS *stubs.BastionTLS
+	cfgMu   sync.Mutex // omniwitness.ConfigLogs is process-wide; Main reads it once at start
 )
 
 // setupTLS creates the stub bastion's certificate and makes this process trust it. It must
 // run before the first TLS use of the process (the system root pool is loaded once).
 func setupTLS(dir string) error {
-	key, err := ecdsa.GenerateKey(elliptic.P256(), crand.Reader)
+	t, err := stubs.NewBastionTLS(dir)
 	if err != nil {
 		return err
 	}
-	tmpl := &x509.Certificate{
-		SerialNumber: big.NewInt(7), Subject: pkix.Name{CommonName: "verif stub bastion"},
-		NotBefore: time.Now().Add(-time.Hour), NotAfter: time.Now().Add(24 * time.Hour),
-		KeyUsage: x509.KeyUsageDigitalSignature | x509.KeyUsageCertSign, ExtKeyUsage: []x509.ExtKeyUsage{x509.ExtKeyUsageServerAuth},
-		IsCA: true, BasicConstraintsValid: true,
-		DNSNames: []string{"localhost"}, IPAddresses: []net.IP{net.ParseIP("127.0.0.1"), net.ParseIP("::1")},
-	}
-	der, err := x509.CreateCertificate(crand.Reader, tmpl, tmpl, &key.PublicKey, key)
-	if err != nil {
-		return err
-	}
-	p := filepath.Join(dir, "stub-bastion-ca.pem")
-	if err := os.WriteFile(p, pem.EncodeToMemory(&pem.Block{Type: "CERTIFICATE", Bytes: der}), 0o644); err != nil {
-		return err
-	}
-	empty := filepath.Join(dir, "no-certs")
-	_ = os.MkdirAll(empty, 0o755)
-	os.Setenv("SSL_CERT_FILE", p)
-	os.Setenv("SSL_CERT_DIR", empty)
-	stubCert = tls.Certificate{Certificate: [][]byte{der}, PrivateKey: key}
+	os.Setenv("SSL_CERT_FILE", t.CAFile)
+	os.Setenv("SSL_CERT_DIR", t.EmptyDir)
+	stubTLS = t
 	return nil
 }
 
@@ -81,13 +56,12 @@ func e2e(run *ev.Run, unit int64, r *rand.Rand, dir string) {
 		o, _ := json.Marshal(l.Origin)
 		fmt.Fprintf(&y, "  - Origin: %s\n    URL: http://unused.invalid/\n    PublicKey: %s\n    Feeder: none\n", o, l.Key.Vkey())
 	}
-	bl, err := tls.Listen("tcp", "127.0.0.1:0", &tls.Config{Certificates: []tls.Certificate{stubCert}, MinVersion: tls.VersionTLS13, NextProtos: []string{"bastion/0"}, ClientAuth: tls.RequireAnyClientCert})
+	bl, err := stubs.ListenBastion(stubTLS)
 	if err != nil {
 		run.Inconclusive(err.Error())
 		return
 	}
 	defer bl.Close()
-	_, port, _ := net.SplitHostPort(bl.Addr().String())
 	api, err := net.Listen("tcp", "127.0.0.1:0")
 	if err != nil {
 		run.Inconclusive(err.Error())
@@ -104,7 +78,7 @@ func e2e(run *ev.Run, unit int64, r *rand.Rand, dir string) {
 	go func() {
 		done <- omniwitness.Main(ctx, omniwitness.OperatorConfig{
 			WitnessKeys: keys.Signers, WitnessVerifier: keys.Signers[1].(interface{ Verifier() note.Verifier }).Verifier(),
-			BastionAddr: "localhost:" + port, BastionKey: bkey, BastionRateLimit: 1e6,
+			BastionAddr: bl.Addr(), BastionKey: bkey, BastionRateLimit: 1e6,
 		}, inmemory.NewPersistence(), api, http.DefaultClient)
 	}()
 	apiURL := "http://" + api.Addr().String()
@@ -125,60 +99,44 @@ func e2e(run *ev.Run, unit int64, r *rand.Rand, dir string) {
 		return
 	}
 	// the backend connects on its 5 s reconnect ticker
-	type acc struct {
-		c   net.Conn
+	type accRes struct {
+		k   *stubs.Backend
 		err error
 	}
-	ach := make(chan acc, 1)
-	go func() { c, err := bl.Accept(); ach <- acc{c, err} }()
-	var conn *tls.Conn
+	ach := make(chan accRes, 1)
+	go func() { k, err := bl.Accept(60 * time.Second); ach <- accRes{k, err} }()
+	var be *stubs.Backend
 	select {
 	case a := <-ach:
 		if a.err != nil {
-			run.Inconclusive("stub bastion accept: " + a.err.Error())
+			if strings.Contains(a.err.Error(), "handshake") {
+				run.Violate("e2e_handshake_failed", "TLS handshake with the stub bastion failed: "+a.err.Error(), unit, nil)
+			} else {
+				run.Inconclusive("stub bastion: " + a.err.Error())
+			}
 			return
 		}
-		conn = a.c.(*tls.Conn)
+		be = a.k
 	case err := <-done:
 		run.Violate("e2e_main_exited", fmt.Sprintf("omniwitness.Main returned %v before connecting to the bastion", err), unit, nil)
 		return
-	case <-time.After(60 * time.Second):
-		run.Inconclusive("watchdog: the backend did not connect to the stub bastion within 60 s")
-		return
 	}
-	hctx, hcancel := context.WithTimeout(context.Background(), 20*time.Second)
-	err = conn.HandshakeContext(hctx)
-	hcancel()
-	if err != nil {
-		run.Violate("e2e_handshake_failed", "TLS handshake with the stub bastion failed: "+err.Error(), unit, nil)
-		return
-	}
-	cs := conn.ConnectionState()
+	cs := be.State
 	if cs.Version != tls.VersionTLS13 || cs.NegotiatedProtocol != "bastion/0" || len(cs.PeerCertificates) != 1 {
 		run.Violate("e2e_connection_parameters", fmt.Sprintf("reverse connection: TLS version %x, ALPN %q, %d client certificates (want TLS 1.3, bastion/0, 1)", cs.Version, cs.NegotiatedProtocol, len(cs.PeerCertificates)), unit, nil)
 		return
 	}
-	if pk, ok := cs.PeerCertificates[0].PublicKey.(ed25519.PublicKey); !ok || !bytes.Equal(pk, bkey.Public().(ed25519.PublicKey)) {
+	if !be.ClientKeyIs(bkey.Public().(ed25519.PublicKey)) {
 		run.Violate("e2e_client_certificate_key", "the client certificate does not carry the configured bastion key", unit, nil)
-		return
-	}
-	cc, err := (&http2.Transport{}).NewClientConn(conn)
-	if err != nil {
-		run.Inconclusive("http2 client conn: " + err.Error())
 		return
 	}
 	run.Count("e2e_sessions")
 	post := func(b []byte) (int, string, string) {
-		req, _ := http.NewRequest(http.MethodPost, "https://backend.invalid/add-checkpoint", bytes.NewReader(b))
-		rctx, rc := context.WithTimeout(context.Background(), 30*time.Second)
-		defer rc()
-		resp, err := cc.RoundTrip(req.WithContext(rctx))
+		code, ct, rb, err := be.Post(b, 30*time.Second)
 		if err != nil {
 			return -1, "", "transport: " + err.Error()
 		}
-		defer resp.Body.Close()
-		rb, _ := io.ReadAll(resp.Body)
-		return resp.StatusCode, resp.Header.Get("Content-Type"), string(rb)
+		return code, ct, rb
 	}
 	snap := func() *wit.Snapshot {
 		s := &wit.Snapshot{CP: map[string][]byte{}, Err: map[string]string{}}
@@ -210,8 +168,7 @@ func e2e(run *ev.Run, unit int64, r *rand.Rand, dir string) {
 	}
 	drive(run, unit, r, t, 60)
 	// the stub closes its side first (while a bastion connection is up, cancelling the context does not end Main)
-	cc.Close()
-	conn.Close()
+	be.Close()
 	cancel()
 	select {
 	case <-done:
